@@ -729,7 +729,34 @@ func verifKeys(m map[string]string) string {
 func (e *verifEnv) checkSync(s *verifSnapshot, when, op, fault string) {
 	e.c.Add("sync-evaluations", 1)
 	if d := verifMapDiff(s.active, s.repo); d != "" {
-		e.c.Violate(fmt.Sprintf("C22/persisted-vs-memory.%s.%s.%s", when, op, fault),
+		cls := fmt.Sprintf("C22/persisted-vs-memory.%s.%s.%s", when, op, fault)
+		if strings.HasSuffix(fault, ".overlapped") {
+			// one root cause whatever the operations and the failure point were: a
+			// change connected (or, undoing a disconnect, re-connected) one of its
+			// snaps to a snap that an overlapping change then took away again (the
+			// undo of its installation, or its removal), which cleans memory only
+			gone := ""
+			ks := make([]string, 0, len(s.active))
+			for k := range s.active {
+				ks = append(ks, k)
+			}
+			sort.Strings(ks)
+			for _, k := range ks {
+				if _, ok := s.repo[k]; ok {
+					continue
+				}
+				for _, side := range strings.Fields(k) {
+					if name := strings.SplitN(side, ":", 2)[0]; !e.installed(name) {
+						gone = name
+					}
+				}
+				break
+			}
+			if gone != "" {
+				cls = fmt.Sprintf("C22/persisted-vs-memory.%s.overlapped:connection-to-a-snap-an-overlapping-change-took-away", when)
+			}
+		}
+		e.c.Violate(cls,
 			"%s (%s, %s): active persisted connections %s, in-memory connections %s; first difference (persisted vs memory) %s",
 			when, op, fault, verifKeys(s.active), verifKeys(s.repo), d)
 	}
